@@ -2,9 +2,9 @@ SPECIFICATION Spec
 CONSTANTS
   Accts = {1, 2}
   MaxDepth = 3
-  MaxFrames = 3
+  MaxFrames = 4
   MaxTx = 1
-  MaxMuts = 2
+  MaxMuts = 3
   AsCoded = FALSE
 INVARIANTS TypeOK FailRestores StaticPure TxClean ReceiptOwn Conservation
 VIEW NoHist
